@@ -36,7 +36,7 @@ REAL = ["localcider.backend.seqfileparser.SequenceFileParser (parseSeqFile, __va
 STUBBED = ["the raw device under seqfileparser.open (SimFS.SimRaw): chunking, EIO, open errors, torn files"]
 ASSUMPTIONS = ["non-space whitespace strictly inside a sequence line (TAB, NBSP, U+3000) counts as a foreign character; not generated because the statement is silent: non-space whitespace at the ends of a line, characters some splitters treat as line boundaries (VT, FF, FS-US, NEL, U+2028/9), BOMs, lone CR, non-ASCII digits, "
                "files reducing to an empty sequence, a first header appearing after sequence lines (the reference refuses to judge these: DISCARDED)",
-               "lower-case forms of the 20 residue letters are not judged (DISCARDED); other lower-case letters count as foreign characters",
+               "a file with lower-case forms of the 20 residue letters may be rejected or must parse to exactly the upper-cased residues (both readings accepted, nothing else); other lower-case letters count as foreign characters",
                "open handles after a call are counted as a probe, not a verdict (the statement does not mention handles)"]
 PROBES = ["file_name_with_glob_characters", "parser_instance_reused", "second_object_from_same_file_after_mutator", "later_file_in_same_process", "same_file_read_again", "path_rewritten_with_new_content", "file_larger_than_io_buffer", "torn_file", "torn_inside_header", "crlf", "short_reads_1_byte", "chunk_splits_crlf", "eio_fired_before_eof", "eio_scheduled_past_eof",
           "open_error", "corrupt_second_header", "corrupt_second_star", "corrupt_nonfinal_star", "corrupt_foreign_char",
@@ -352,7 +352,8 @@ def corpus():
 
 # ------------------------------------------------------------------ the reference parser
 def ref_parse(data):
-    """('ok', residues) | ('reject', why) | ('ambig', why) for the bytes of a file."""
+    """('ok', residues) | ('reject', why) | ('ambig', why) | ('either', residues: the file may be rejected or must parse
+    to exactly these) for the bytes of a file."""
     try:
         text = data.decode("utf-8")
     except UnicodeDecodeError:
@@ -364,6 +365,7 @@ def ref_parse(data):
         return ("ambig", "lone CR")
     header = False
     seen_seq = False
+    lower_seen = False
     kept = []
     for line in text.split("\n"):
         for ch in line:
@@ -393,7 +395,10 @@ def ref_parse(data):
             elif ch.isdigit():
                 return ("ambig", "non-ASCII digit")
             elif ch.upper() in AA and len(ch.upper()) == 1:
-                return ("ambig", "lower-case residue letter (a parser may read soft-masked residues; the statement does not say)")
+                # a lower-case residue letter: either a foreign character (rejected, as today) or a soft-masked
+                # residue (read as its upper-case form); the statement allows both readings and nothing else
+                lower_seen = True
+                kept.append(ch.upper())
             else:
                 return ("reject", "foreign character %r" % ch)
     s = "".join(kept)
@@ -406,6 +411,8 @@ def ref_parse(data):
         s = s[:-1]
     if s == "":
         return ("ambig", "empty sequence")
+    if lower_seen:
+        return ("either", s)
     return ("ok", s)
 
 
@@ -497,7 +504,7 @@ def do_step(k, plan, fs, ctx, rnd, sfp):
             raise Discard("reference refuses: " + val)
         ctx.count("ambiguous_later_step_skipped")
         return
-    ctx.probe("reference_accepts" if verdict == "ok" else "reference_rejects")
+    ctx.probe("reference_accepts" if verdict == "ok" else "reference_accepts_or_rejects" if verdict == "either" else "reference_rejects")
     if meta.get("crlf"):
         ctx.probe("crlf")
     if meta.get("numbered"):
@@ -559,23 +566,31 @@ def do_step(k, plan, fs, ctx, rnd, sfp):
                     parser = SHARED["parser"]
                 else:
                     parser = sfp.SequenceFileParser()
+                # the way the call is spelled (positional / keyword, with or without the quiet flag) is chosen
+                # from the signature, so that a call the signature cannot accept is never mistaken for a rejection
                 import inspect
+                forms = []
+                if plan.get("silent") and plan.get("kw"):
+                    forms.append(((), {"filename": path, "silent": True}))
+                if plan.get("silent"):
+                    forms += [((path, True), {}), ((path,), {"silent": True})]
+                if plan.get("kw"):
+                    forms.append(((), {"filename": path}))
+                forms.append(((path,), {}))
                 try:
-                    pnames = inspect.signature(parser.parseSeqFile).parameters
-                    kw_ok = "filename" in pnames and "silent" in pnames
-                    has_silent = "silent" in pnames or len(pnames) >= 2
+                    sig = inspect.signature(parser.parseSeqFile)
                 except Exception:
-                    kw_ok, has_silent = False, True
-                if not has_silent:
-                    val = parser.parseSeqFile(path)
-                elif plan.get("silent") and plan.get("kw") and kw_ok:
-                    val = parser.parseSeqFile(filename=path, silent=True)
-                elif plan.get("silent"):
-                    val = parser.parseSeqFile(path, True)
-                elif plan.get("kw") and kw_ok:
-                    val = parser.parseSeqFile(filename=path)
-                else:
-                    val = parser.parseSeqFile(path)
+                    sig = None
+                cargs, ckw = (path,), {}
+                for fa, fk in forms:
+                    try:
+                        if sig is not None:
+                            sig.bind(*fa, **fk)
+                        cargs, ckw = fa, fk
+                        break
+                    except TypeError:
+                        continue
+                val = parser.parseSeqFile(*cargs, **ckw)
             elif api == "SP":
                 val = SequenceParameters(sequenceFile=path)
             else:
